@@ -890,6 +890,20 @@ impl<'a> Message<'a> {
             });
         }
 
+        if mlength + MessageHeader::LENGTH < data.len() {
+            // bytes beyond the advertised size are not part of the message and must never be
+            // interpreted as attributes
+            warn!(
+                "malformed advertised size {:?} and data size {:?} don't match",
+                mlength + 20,
+                data.len()
+            );
+            return Err(StunParseError::TooLarge {
+                expected: mlength + MessageHeader::LENGTH,
+                actual: data.len(),
+            });
+        }
+
         let mut data_offset = MessageHeader::LENGTH;
         let mut data = &data[MessageHeader::LENGTH..];
         let ending_attributes = [
